@@ -467,3 +467,94 @@ ENGINES = [
     Engine('reader', reader_cases, check_reader, quick=400, thorough=6000, batch=200),
     Engine('read_message', protocol_cases, check_protocol, quick=250, thorough=4000, batch=125),
 ]
+
+
+# ---------------------------------------------------------------------------- engine c: an established session of the real Peer
+
+
+@st.composite
+def session_cases(draw):
+    msgs = draw(st.lists(st.sampled_from(['ka', 'eor', 'eor6', 'refresh', 'update']), min_size=1, max_size=8))
+    total = sum(19 + len(DECODABLE[m][1]) for m in msgs)
+    cuts = sorted(draw(st.lists(st.integers(1, max(1, total - 1)), max_size=8, unique=True)))
+    gaps = [draw(st.sampled_from([0.0, 0.02, 0.05, 0.11, 0.15, 0.5, 3.0])) for _ in range(len(cuts) + 1)]
+    bad = draw(st.one_of(st.none(), bad_header(4096, True)))
+    return {'msgs': msgs, 'cuts': cuts, 'gaps': gaps, 'bad': bad}
+
+
+def check_session(case: dict) -> dict:
+    import json as _json
+
+    from vlib import netharness as nh
+    from vlib import scenario as sc
+
+    stream = b''
+    boundaries = [0]
+    for m in case['msgs']:
+        t, body = DECODABLE[m]
+        stream += codec.frame(t, body)
+        boundaries.append(len(stream))
+    want_err = None
+    if case['bad']:
+        raw, want_err = render_bad(case['bad'], 4096)
+        stream += raw
+    cuts = [c for c in case['cuts'] if 0 < c < len(stream)]
+    chunks = []
+    prev = 0
+    for c in cuts + [len(stream)]:
+        if c > prev:
+            chunks.append(stream[prev:c])
+        prev = c
+    out: dict = {}
+
+    async def main(loop):
+        with nh.Harness(loop, config_text=sc.config(hold=30, routes=['route 40.0.0.0/24 next-hop 1.2.3.4']), env={'bgp.openwait': 20}) as hn:
+            hn.start()
+            await hn.sleep(0.2)
+            r = hn.remotes[0]
+            if not await nh.establish(r, sc.open_body('valid'), timeout=5.0):
+                raise RuntimeError('session did not establish')
+            await hn.sleep(0.5)
+            hn.api_read()
+            n0 = len(hn.api_lines)
+            m0 = len(r.messages)
+            for i, ch in enumerate(chunks):
+                await r.send(ch)
+                await hn.sleep(case['gaps'][i] if i < len(case['gaps']) else 0.0)
+            await hn.sleep(1.0)
+            hn.api_read()
+            out['api'] = [line for _, line in hn.api_lines[n0:]]
+            out['after'] = [(ty, body) for _, ty, body in r.messages[m0:]]
+            out['closed'] = r.closed_at is not None
+
+    vloop.run(main)
+    got = []
+    for line in out['api']:
+        try:
+            doc = _json.loads(line)
+        except ValueError:
+            continue
+        if doc.get('neighbor', {}).get('direction') == 'receive' and doc.get('type') in ('keepalive', 'update', 'refresh'):
+            got.append(doc['type'])
+    want = [{'ka': 'keepalive', 'eor': 'update', 'eor6': 'update', 'update': 'update', 'refresh': 'refresh'}[m] for m in case['msgs']]
+    if got != want:
+        raise Violation('session:message-sequence-differs', f'handed up {got}, the stream holds {want}; cuts {cuts} gaps {case["gaps"]}')
+    notes = [codec.decode_notification(b)[:2] for ty, b in out['after'] if ty == 3]
+    if want_err is None:
+        if notes or out['closed']:
+            raise Violation(f'session:spurious-close:{notes[0][0]}/{notes[0][1]}' if notes else 'session:spurious-close', f'cuts {cuts} gaps {case["gaps"]}')
+    else:
+        if not notes:
+            raise Violation(f'session:bad-header-accepted:expected-{want_err[0]}/{want_err[1]}', case['bad']['kind'])
+        if notes[0] != want_err:
+            raise Violation(f'session:wrong-error:{notes[0][0]}/{notes[0][1]}-for-{want_err[0]}/{want_err[1]}', case['bad']['kind'])
+    slow = any(g > 0.1 for g in case['gaps'][: len(chunks) - 1])
+    classes = ['session']
+    if slow:
+        classes.append('session:gap>100ms-inside-stream')
+    if case['bad']:
+        classes.append(f'session-bad:{case["bad"]["kind"]}')
+    return {'nontrivial': nontrivial(chunks, boundaries), 'classes': classes}
+
+
+ENGINES.append(Engine('session', session_cases, check_session, quick=60, thorough=1500, batch=60))
